@@ -89,9 +89,9 @@ func (c *Ctx) strLit(s string) Term {
 	t := raw(n, SStr)
 	c.strLits[s] = t
 	// distinctness from earlier literals
-	for o, ot := range c.strLits {
+	for _, o := range sortedKeys(c.strLits) {
 		if o != s {
-			c.Assume(TTrue, Neq(t, ot), "distinct string literals")
+			c.Assume(TTrue, Neq(t, c.strLits[o]), "distinct string literals")
 		}
 	}
 	return t
